@@ -17,15 +17,15 @@ Section FB.
   Variable yu : list str.
   Variable zd : list (Z * str).
 
-  Definition bad_CCi := bad_rows (fun i r => check_row_eq bq BigQ.add BigQ.zero BigQ.eq_bool
-                           (rowmul bq BigQ.mul r (Ciq d)) [(i, BigQ.one)]) (Cq d).
-  Definition bad_CiC := bad_rows (fun i r => check_row_eq bq BigQ.add BigQ.zero BigQ.eq_bool
-                           (rowmul bq BigQ.mul r (Cq d)) [(i, BigQ.one)]) (Ciq d).
-  Definition bad_MC :=
-    let C := Cq d in let mu := muq d in
+  Definition bad_prod (A B : mat bq) := bad_rows (fun i r => check_row_eq bq BigQ.add BigQ.zero BigQ.eq_bool
+                           (rowmul bq BigQ.mul r B) [(i, BigQ.one)]) A.
+  Definition bad_CCi := bad_prod (Cq d) (Ciq d).
+  Definition bad_CiC := bad_prod (Ciq d) (Cq d).
+  Definition bad_MC_of (C : mat bq) (mu : list bq) (M : mat bq) :=
     bad_rows (fun i r => check_row_eq bq BigQ.add BigQ.zero BigQ.eq_bool
                 (rowmul bq BigQ.mul r C)
-                (scale_cols bq BigQ.mul BigQ.opp BigQ.zero mu (mrow bq C (N.to_nat i)))) (Mq d).
+                (scale_cols bq BigQ.mul BigQ.opp BigQ.zero mu (mrow bq C (N.to_nat i)))) M.
+  Definition bad_MC := bad_MC_of (Cq d) (muq d) (Mq d).
   Definition bad_halflife :=
     map fst (filter (fun ihm =>
       match hl_dec (fst (snd ihm)) with
